@@ -429,6 +429,15 @@ def _phase_derived(fn: ast.FunctionDef, e: ast.AST) -> bool:
                         if n not in derived:
                             derived.add(n)
                             changed = True
+            elif isinstance(st, (ast.For, ast.comprehension)):
+                src = st.iter
+                hit = any(isinstance(x, ast.Attribute) and x.attr in ("phase", "_phase") for x in ast.walk(src)) or \
+                    any(isinstance(x, ast.Name) and x.id in derived for x in ast.walk(src))
+                if hit:
+                    for x in ast.walk(st.target):
+                        if isinstance(x, ast.Name) and x.id not in derived:
+                            derived.add(x.id)
+                            changed = True
     return any(isinstance(x, ast.Attribute) and x.attr in ("phase", "_phase") for x in ast.walk(e)) or \
         any(isinstance(x, ast.Name) and x.id in derived for x in ast.walk(e))
 
